@@ -156,6 +156,41 @@ def o_locks(prog, lines):
     return bad
 
 
+def o_poison(prog, lines):
+    """C04: `a lock released by a panicking holder is seen as poisoned`.  A Mutex guard or an RwLock *write* guard that a
+    task holds when it starts to panic is released by its unwinding; the guard is exclusive, so any acquisition of that
+    lock that another task completes afterwards comes after that release and must report the poison."""
+    P = parse_program(prog)
+    bad = []
+    ACQ = {"lock": "m", "trylock": "m", "write": "w", "trywrite": "w", "read": "r", "tryread": "r"}
+    REL = {"unlock": "m", "unwrite": "w", "unread": "r"}
+    for e in executions(lines):
+        held = {}            # tid -> list of (obj, kind)
+        must = {}            # obj -> tid of the panicking holder
+        for tid, k, pc, name, args, res in _ops(P, e):
+            if pc is None:
+                if name == "panicking":
+                    for (o, kd) in held.get(tid, []):
+                        if kd in ("m", "w"):
+                            must.setdefault(o, tid)
+                continue
+            if not args:
+                continue
+            o = args[0]
+            if name in ACQ and (res.startswith("v:") or res.startswith("poisoned")):
+                held.setdefault(tid, []).append((o, ACQ[name]))
+                if o in must and must[o] != tid and res.startswith("v:") and P["objs"].get(o) in ("mutex", "rwlock"):
+                    bad.append((f"{P['objs'].get(o)} {o} was held ({'write' if P['objs'].get(o) == 'rwlock' else 'locked'}) by task {must[o]} when it panicked, "
+                                f"yet `{name} {o}` by task {tid} afterwards reports no poison", "C04:poison-missed"))
+            elif name in REL:
+                h = held.get(tid, [])
+                for i in range(len(h) - 1, -1, -1):
+                    if h[i] == (o, REL[name]):
+                        del h[i]
+                        break
+    return bad
+
+
 def o_channels(prog, lines):
     """C06: exactly-once, FIFO, capacity, Full/Empty exactness, disconnection"""
     P = parse_program(prog)
